@@ -196,6 +196,48 @@ Example C20_static_output_spill_nonvacuous :
   = [(XNone, (0, 0)); (XPush (Ok tt), (1, 2)); (XPush (Err EStatic), (1, 2)); (XGet (Ok 1), (1, 2))]%nat.
 Proof. vm_compute. reflexivity. Qed.
 
+(** One pull of every input per distinct request time.  (a) A memo hit leaves the environment of the
+    WeightedSum untouched whatever its inputs are - so a repeated request for the same time (the
+    merger's output read twice in one update of a consumer) cannot advance the pull history of a
+    DelayToPull adapter in front of an input, and the time asked of the source stays the one the
+    driver checked.  (b) Over any request sequence with succeeding pulls the number of input pulls is
+    (number of maximal runs of equal request times) * (number of inputs).  (c) On links without
+    DelayToPull the stateful link evaluator of the network model is [pull_chain]. *)
+Theorem C20_weighted_sum_one_pull_per_time :
+  (forall (St : Type) (pull : St -> nat -> Z -> St * res Q) (units : list Q) (w : wstate) (s : St) (t : Z),
+      all_some (ws_fetched w) <> None -> ws_last w = Some t ->
+      ws_get pull units w s t = (w, s, Ok (ws_out w)))
+  /\ (forall (units : list Q) (src : nat -> Z -> res Q) (ts : list Z),
+         (forall i t, exists q, src i t = Ok q) ->
+         forall (w : wstate) (log : list (nat * Z)),
+           ws_valid w = true -> all_some (ws_fetched w) <> None ->
+           length (snd (ws_run (logging_pull src) units w log ts))
+           = (length log + distinct_runs (ws_last w) ts * length (ws_fetched w))%nat)
+  /\ (forall (St : Type) (src : St -> Z -> St * res Q) (note : nat -> Z -> St -> St)
+             (hist : nat -> St -> list Z) (set_hist : nat -> list Z -> St -> St) (c : list (nat * adapter)) s t,
+         pull_chain_st src note hist set_hist (plain_chain c) s t = pull_chain src note c s t).
+Proof.
+  split; [|split].
+  - intros St. exact (@ws_get_hit_any St).
+  - exact ws_run_pull_count.
+  - intros St. exact (@pull_chain_st_plain St).
+Qed.
+
+(** Why the memo matters: input 0 behind DelayToPull(steps = 1) (state = its pull history), weight 1.
+    Two requests for time 3 in one update: the memoised merger answers both with the data of the
+    previous pull time (0); without the memo the second request already gets the data for time 3. *)
+Definition ex_dtp_pull (h : list Z) (i : nat) (t : Z) : list Z * res Q :=
+  match i with
+  | O => let '(h', t') := dtp_with_delay 0 0 h in (dtp_pulled 1 h' t, Ok (inject_Z t'))
+  | _ => (h, Ok 1%Q)
+  end.
+Definition ex_w2 : wstate := mkW [Some 0%Q; Some 0%Q] true None 0%Q.
+Example C20_memo_needed_with_delay_to_pull :
+  fst (ws_run ex_dtp_pull [1%Q] ex_w2 [] [3; 3; 5]) = [Ok 0%Q; Ok 0%Q; Ok (3 # 1)%Q]
+  /\ fst (ws_run_nomemo ex_dtp_pull [1%Q] ex_w2 [] [3; 3; 5]) = [Ok 0%Q; Ok (3 # 1)%Q; Ok (3 # 1)%Q]
+  /\ distinct_runs None [3; 3; 5] = 2%nat.
+Proof. vm_compute. repeat split. Qed.
+
 (** Scheduler level (model FV.Sched; the correspondence check of C20 runs compositions with pull-based components
     against it, [C20Mix.c20_check2]).  Whenever the driver advances a time component [u], every dependency of [u] is
     served for [u]'s announced time: a time-stepped source has published at or beyond the time the link needs, and a
@@ -223,6 +265,7 @@ Proof.
 Qed.
 
 Print Assumptions C20_static_output.
+Print Assumptions C20_weighted_sum_one_pull_per_time.
 Print Assumptions C20_sched_through_pull.
 Print Assumptions C20_sched_pulls_succeed.
 Print Assumptions C20_static_output_spill_invisible.
